@@ -60,6 +60,7 @@ type vncCfg struct {
 	Unit     int   `json:"unit"`
 	Delta    int   `json:"delta"`
 	Deadline int   `json:"deadline"` // seconds
+	Len      int   `json:"len"`      // initial length of the honest chain in model units
 }
 
 type vncObs struct {
@@ -355,7 +356,13 @@ func vncRunOne(in vncPathIn, outFn, scratch string) (err error) {
 	r.f, r.w = f, bufio.NewWriter(f)
 
 	vnShortenTimeouts()
-	r.net, err = vnStartNetwork(r.cfg.Seed, r.real(io.Br[0].Tip))
+	if r.cfg.Len <= 0 {
+		r.cfg.Len = io.Br[0].Tip
+	}
+	if r.real(r.cfg.Len) > 5000 {
+		return fmt.Errorf("path %d: initial chain of %d blocks is out of range", in.ID, r.real(r.cfg.Len))
+	}
+	r.net, err = vnStartNetwork(r.cfg.Seed, r.real(r.cfg.Len))
 	if err != nil {
 		return err
 	}
